@@ -26,6 +26,8 @@ impl Tgt { #[verifier::external_body] pub fn get(&self) -> usize { unimplemented
         dict(file="src/solve/external.rs", path="impl Workspace<'_>",
              header_subst=[(r"impl Workspace<'_>", "impl Workspace", "TYPE-SUBST lifetime dropped")],
              ghost_members="    pub open spec fn fresh(self) -> bool { self.queue@.len() == 0 && self.work@.len() == 0 && map_len(&self.payoffs) == 0 }",
+             helper_candidate="ensures final(self).fresh(),",
+             helper_body_subst=[(r"HashMap::with_capacity", "PayoffMap::with_capacity", "TYPE-SUBST opaque payoff map")],
              members=[dict(path="fn with_capacity", ret="r", vis="pub ", obligation="C07.V.workspace.with_capacity_fresh",
                            body_subst=[(r"HashMap::with_capacity", "PayoffMap::with_capacity", "TYPE-SUBST opaque payoff map")],
                            contract="ensures r.fresh(), // @ob C07.V.workspace.with_capacity_fresh")]),
